@@ -32,7 +32,7 @@ def run_parts(prop, parts):
     for part in parts:
         t0 = time.time()
         cases = part["cases"]
-        impl = C.run_harness(part["harness"], cases, env=part.get("env"), exe=part.get("exe"), timeout=part.get("timeout", 600), chunk=part.get("chunk"))
+        impl = C.run_harness(part["harness"], cases, env=part.get("env"), exe=part.get("exe"), timeout=part.get("timeout", 240), chunk=part.get("chunk"))
         mj = C.run_driver(part["driver"], cases, impl) if part.get("driver") else [("", "-")] * len(cases)
         cmp_ = part.get("compare") or (lambda c, i, m: i == m)
         mism, jf = [], []
